@@ -358,7 +358,7 @@ func c02Run(c *Ctx, t *c02Tables, mem *fastMem, e *aluEnc, base z80.States, d ui
 				case lIYL:
 					exp.IY = exp.IY&0xff00 | uint16(nv)
 				}
-				got := cpu.States
+				got := Arch(cpu.States)
 				got.IR.Lo = exp.IR.Lo // R: C14
 				got.AF.Lo = got.AF.Lo&mask | exp.AF.Lo&^mask
 				if a == 0x7f && v == 0x01 && f == 0x01 && c.R.NSamples() < 10 && (e.Rep || e.DPos >= 0) {
